@@ -9,6 +9,16 @@ META = {
    technique="CBMC DFCC function contracts (requires/ensures/assigns) enforced on the real C code; ghost spec verdict; native counterexample replay",
    design="DESIGN.md §3 C12"),
 }
+ "C06": dict(
+   text="Deductive, all configurations at once (no enumeration of the ~22k cells): on the real per-variant translation units, for every descriptor the real "
+        "parameter check accepts, the function-pointer tables (job API index and burst-API suite id) reach a stage dispatcher whose precondition - called with the "
+        "job's own cipher mode, key size, direction, hash algorithm - is asserted at every one of the ~520 call sites; exactly one dispatcher per stage call. "
+        "AEAD pairing exclusivity is the C12 catalogue proof. Counterexamples name the offending (mode, key, direction, hash) cell.",
+   note="Dispatcher bodies are replaced by precondition-asserting models (listed in trusted_base); which NASM kernel a dispatcher branch binds is by symbol name. "
+        "Quick: sse_t1, avx2_t2, avx512_t2; thorough: all nine variants.",
+   technique="CBMC call-site precondition (callee-contract requires) checking over a fully symbolic accepted descriptor on the real dispatch tables; real is_job_invalid as acceptance predicate",
+   design="DESIGN.md §3 C06"),
+}
 NOT_APPLICABLE = {
  "C18": "callee-saved registers, RSP, DF and MXCSR are not C-visible state; no CBMC contract can mention them and the functions at issue are hand-written NASM (DESIGN.md §3 C18)",
 }
